@@ -110,6 +110,9 @@ class Maildir(_Maildir):
         path = self._join(subpath)
         dest_path = dest._join(dest_subpath)
         os.rename(path, dest_path)
+        if self.colon in name:
+            # as the UID list spells it, whatever the colon on disk is
+            return key + ':' + name.rsplit(self.colon, 1)[-1]
         return name
 
     def get_message_metadata(self, key: str) -> MaildirMessage:
